@@ -19,6 +19,10 @@ What is TEMPLATE-MATCHED (every statement must be the expected one; plumbing, no
   Fiber.__init__                           template: the lumped-loss block; translated: loss -> linear factor, km -> m
                                            -> g_lumped_lin, g_lumped_pos_m
   FiberParams.__init__                     the assignment of self._latency is located; translated: its right-hand side -> g_latency
+  Roadm.propagate                          template PROPAGATE of harness/pygen_c06.py; translated here: the arguments of the two sqrt(...)
+                                           (`pmd = sqrt(H_pmd)`, `pdl = sqrt(H_pdl)`) -> g_roadm_pmd_update, g_roadm_pdl_update
+  Roadm.set_roadm_paths                    template SETPATHS of harness/pygen_c06.py (`if impairment_id is None:` first profile of the
+                                           path type, else the profile of that id or NetworkTopologyError) -> g_roadm_profile
   RamanSolver._create_lumped_losses        template only (unique + multiply.at accumulate every value of a position)
   RamanSolver.calculate_unidirectional_stimulated_raman_scattering, 'numerical' branch
                                            template: the loop and its indices [i - 1]; translated: the update -> g_euler_wave
@@ -34,6 +38,8 @@ from fractions import Fraction
 
 from . import common
 from .pygen import Tr, Unsupported, unify, match_template, find, strip_doc, dotted
+# the ROADM templates are those of C06's translator (not duplicated here)
+from .pygen_c06 import PROPAGATE as ROADM_PROPAGATE, SETPATHS as ROADM_SETPATHS
 
 DST = os.path.join(common.COQ, 'theories', 'Gen', 'FiberGen.v')
 
@@ -237,8 +243,25 @@ def generate(repo=None):
         return trees[path]
     el, su, pa = 'gnpy/core/elements.py', 'gnpy/core/science_utils.py', 'gnpy/core/parameters.py'
     out = ['(* GENERATED on every run by harness/pygen_c05.py from the source files of /repo named below - do not edit. *)',
-           'From Coq Require Import List.', 'From Verif Require Import Prelude Num Model.Raman.', 'Import ListNotations.', '',
-           'Section FiberGen.', 'Context {N : Num}.', 'Local Open Scope num_scope.', 'Notation T := (NT N).', '']
+           'From Coq Require Import List ZArith.', 'From Verif Require Import Prelude Num Model.Raman.', 'Import ListNotations.', '']
+    # ---- Roadm.set_roadm_paths (template of pygen_c06): which profile a crossing gets
+    fn = find(tree(el), 'Roadm.set_roadm_paths')
+    if [a.arg for a in fn.args.args] != ['self', 'from_degree', 'to_degree', 'path_type', 'impairment_id'] or \
+            [ast.unparse(d) for d in fn.args.defaults] != ['None']:
+        raise Unsupported('signature of Roadm.set_roadm_paths')
+    body = strip_doc(fn.body)
+    k = stmt_index(body, lambda s: isinstance(s, ast.Expr) and ast.unparse(s).startswith('self.roadm_paths.append('),
+                   'Roadm.set_roadm_paths')
+    match_template(ROADM_SETPATHS, body[:k + 1], 'Roadm.set_roadm_paths')
+    out += [f'(* {el}: Roadm.set_roadm_paths matches the template SETPATHS of harness/pygen_c06.py: `if impairment_id is None:` the first',
+            '   profile of the path type in library order (else the global impairment), `else:` the profile of that id or NetworkTopologyError *)',
+            'Definition g_roadm_profile {A : Type} (profiles : list (Z * Z * A)) (global : A) (path_type : Z) (impairment_id : option Z) : res A :=',
+            '  match impairment_id with',
+            "  | None => fold_right (fun p acc => let '(_, t, a) := p in if Z.eqb t path_type then Ok a else acc) (Ok global) profiles",
+            "  | Some i => fold_right (fun p acc => let '(j, _, a) := p in if Z.eqb j i then Ok a else acc)",
+            '                         (Err "NetworkTopologyError:impairment-profile-id"%string) profiles',
+            '  end.', '']
+    out += ['Section FiberGen.', 'Context {N : Num}.', 'Local Open Scope num_scope.', 'Notation T := (NT N).', '']
 
     def define(comment, name, binders, body, rty='T'):
         out.append(f'(* {comment} *)')
@@ -266,6 +289,18 @@ def generate(repo=None):
                f'((p - {pre}_att_in con_in att_in) - span_att_db) - {pre}_att_out con_out')
         define(f'{el}: {cls}.propagate, `chromatic_dispersion += self.chromatic_dispersion(frequency)` and `latency += params.latency` '
                '(template)', f'{pre}_cd_lat_update', '(cd lat span_cd span_lat : T)', '(cd + span_cd, lat + span_lat)', 'T * T')
+
+    # ---- Roadm.propagate (template of pygen_c06): PMD / PDL of a crossing
+    fn = find(tree(el), 'Roadm.propagate')
+    if [a.arg for a in fn.args.args] != ['self', 'spectral_info', 'degree', 'from_degree']:
+        raise Unsupported('signature of Roadm.propagate')
+    b = match_template(ROADM_PROPAGATE, strip_doc(fn.body), 'Roadm.propagate')
+    for hole, name, var, imp in (('H_pmd', 'g_roadm_pmd_update', 'spectral_info.pmd', 'pmd_impairment'),
+                                 ('H_pdl', 'g_roadm_pdl_update', 'spectral_info.pdl', 'pdl_impairment')):
+        tr = NumTr({var: 'x', imp: 'impairment'})
+        define(f'{el}: Roadm.propagate, `{var} = sqrt({hole})` for one channel (impairment = the value of the configured profile)',
+               name, '(x impairment : T)', f'nsqrt {tr.e(b[hole])}')
+        all_used(tr, f'Roadm.propagate {hole}')
 
     # ---- Fiber.pmd, Fiber.loss
     ret = fn_body(tree(el), 'Fiber.pmd')
